@@ -701,6 +701,12 @@ class Server(utils.EventEmitter):
         '''
         See Bluetooth spec Vol 3, Part F - 3.4.2.1 Exchange MTU Request
         '''
+        if att.is_enhanced_bearer(bearer):
+            # The ATT_MTU of an enhanced bearer is fixed by its L2CAP channel (the
+            # minimum of the two MTU fields): this request is not allowed there.
+            self.on_att_request(bearer, request)
+            return
+
         self.send_response(
             bearer, att.ATT_Exchange_MTU_Response(server_rx_mtu=self.max_mtu)
         )
